@@ -1,4 +1,4 @@
-#!/usr/bin/env python3
+#!/venv/bin/python
 """Regenerates harness/fingerprints.json: a hash of the normalised AST of every module under
 /repo/src/whoosh at the tree the framework was last validated against.  A changed fingerprint is
 never a violation; it only makes the checks spend more budget (vcheck.Ctx.boost)."""
